@@ -11,6 +11,30 @@ from ..model import AnalysisError, ClassInfo, dotted, norm_src, own_nodes
 from ..util import names_in
 
 
+def _each_owner(ctx, col):
+    """R-EACHOWNER: a collection of views answers every element from that element's own owner -- never from the owner of its first element."""
+    repo = ctx.repo
+    col.rule("R-EACHOWNER", "a collection of segments reads every element through that element (`s.get_ndata(k) for s in self`): no accessor of the collection takes the owner of one "
+             "element (`self[0].attach`) for all of them -- pooled segments of several branches, or detached segments, have different owners with local indices (zero expected)", floor=1)
+    n = hits = 0
+    for c in repo.classes.values():
+        if c.module.name != "swcgeom.core.compartment" or not any((dotted(b) or "").startswith("list") or "list" in norm_src(b) for b in c.node.bases):
+            continue
+        for m in c.methods.values():
+            if m.is_lambda:
+                continue
+            n += 1
+            for a_ in own_nodes(m):
+                if isinstance(a_, ast.Attribute) and a_.attr in ("attach", "ndata") and isinstance(a_.value, ast.Subscript) and isinstance(a_.value.value, ast.Name) and a_.value.value.id == "self" \
+                        and isinstance(a_.value.slice, ast.Constant):
+                    hits += 1
+                    col.bad("R-EACHOWNER", m.qualname, m.loc(a_), "every element is read from its own owner",
+                            f"`{norm_src(a_)}` takes the owner of one element for the whole collection: segments pooled from several branches (each attached to its own branch, with local "
+                            f"indices) or detached segments are then all read from the first one's table -- wrong rows, or IndexError", stmt="eachowner", definite=True)
+    if not hits:
+        col.ok("R-EACHOWNER", "swcgeom.core.compartment", "swcgeom/core/compartment.py:1", "every element is read from its own owner", f"{n} methods of the collection classes scanned", stmt="eachowner")
+
+
 def _copy_is_deep(ctx, col):
     """R-COPYDEEP: copy() of the table classes duplicates everything an object owns -- also what subclasses add (BranchTree.branches)."""
     repo = ctx.repo
@@ -60,6 +84,7 @@ def run(ctx, col, tier):
                              'swcgeom.core.tree_utils', 'swcgeom.core.tree_utils_impl', 'swcgeom.core.swc'), floor=2)
     _namesfwd.run_allcols(ctx, col, ('swcgeom.core.path.Path', 'swcgeom.core.branch.Branch', 'swcgeom.core.compartment.Compartment', 'swcgeom.core.node.Node', 'swcgeom.core.tree.Tree.Node', 'swcgeom.core.tree.Tree.Path', 'swcgeom.core.tree.Tree.Branch'))
     col.guard(_copy_is_deep, ctx, col)
+    col.guard(_each_owner, ctx, col)
     from ..rules import idxguard as _idxguard
     _idxguard.run(ctx, col, ('swcgeom.core.tree', 'swcgeom.core.path', 'swcgeom.core.branch', 'swcgeom.core.node', 'swcgeom.core.compartment'), floor=1)
     from ..rules import smalllints as _small_own
